@@ -397,6 +397,31 @@ func c19(r *Run) {
 		}
 	}
 
+	// onPrepare publishes the connection to its poller with register(): from then on the poller and the handler task read
+	// the connection's plain fields, so the accepting goroutine writes none of them afterwards
+	{
+		prep := w.MustFn("(*connection).onPrepare")
+		reg := w.MustFn("(*connection).register")
+		regs := findIns(prep, func(i ssa.Instruction) bool { return isCall(i, reg) })
+		if len(regs) == 0 {
+			r.absentf(" C19: onPrepare does not call register()")
+		}
+		plainFieldStore := func(i ssa.Instruction) bool {
+			st, ok := i.(*ssa.Store)
+			if !ok {
+				return false
+			}
+			fa, ok := st.Addr.(*ssa.FieldAddr)
+			if !ok {
+				return false
+			}
+			n := namedTypeName(fa.X.Type())
+			return n == "connection" || n == "onEvent"
+		}
+		r.neverReach("C19.R2:nothing-written-after-registration", "after onPrepare registered the connection with its poller it writes no plain field of the connection any more (the poller's callbacks and a handler task started by the first input read ctx, the handlers and the buffers without synchronisation with the accepting goroutine)", prep, nil, startsAfter(regs), plainFieldStore, nil, nil, nil, "no store to a connection field reachable after register()")
+	}
+	r.borrow([]string{"C15.R2:who-writes-listener"}, "C15.R2", "C19.R2.listener", func() { c15(r) })
+
 	// the flushing lock protects the flusher's use of the slot: it is stopped before the slot is freed
 	if w.Cfg.Name == "linux" {
 		r.borrow([]string{"C05.R8:stop-flushing-first"}, "C05.R8", "C19.R2", func() { c05(r) })
@@ -408,7 +433,7 @@ func c19(r *Run) {
 		r.borrow([]string{"C10.R2:field-under-token", "C10.R1:helper-releases-last"}, "C10.R", "C19.R2.slot.", func() { c10(r) })
 		r.borrow([]string{"C11.R1:queue-before-release"}, "C11.R1", "C19.R2.slot", func() { c11(r) })
 		if w.Mux != nil {
-			r.borrow([]string{"C17.R1:ring-before-counter", "C17.R3:getters-under-shard-lock", "C17.R3:ring-write-under-listLock"}, "C17.R", "C19.R2.mux.", func() { c17(r) })
+			r.borrow([]string{"C17.R1:ring-before-counter", "C17.R3:getters-under-shard-lock", "C17.R3:ring-write-under-listLock", "C17.R3:emptied-shard-does-not-share-the-batch"}, "C17.R", "C19.R2.mux.", func() { c17(r) })
 		}
 	}
 
